@@ -17,7 +17,7 @@ from ..core import MachineryError, NCPU
 from .. import lib_units as L
 
 MUTS = ['MutShareBody', 'MutShareSpec', 'MutShareTab', 'MutShareMembers', 'MutNoRescope', 'MutStaleProcs',
-        'MutRegisterInParent']
+        'MutRegisterInParent', 'MutShareNest']
 # design mutant -> the property that must reject it
 MUT_EXPECT = {
     'MutShareBody': ('PROPERTY', 'OtherCopyUnchanged'),
@@ -27,6 +27,7 @@ MUT_EXPECT = {
     'MutNoRescope': ('INVARIANT', 'SymbolsResolveInOwnChain'),
     'MutStaleProcs': ('INVARIANT', 'SymbolsResolveInOwnChain'),
     'MutRegisterInParent': ('INVARIANT', 'ParentScopeOfOriginalUnchanged'),
+    'MutShareNest': ('PROPERTY', 'OtherCopyUnchanged'),
 }
 
 
@@ -119,7 +120,8 @@ def gen_histories(ctx, depth, preops, sampled, num=None, seed=0):
 CLASS = {'O': 'OriginalUnchangedByClone', 'C': 'CloneFaithful', 'E': 'Effect', 'U': 'OtherCopyUnchanged',
          'S': 'SymbolsResolveInOwnChain', 'P': 'ParentScopeOfOriginalUnchanged'}
 DETAIL = {'na': 'name', 'de': 'decl', 'ta': 'tab', 'oc': 'occ', 'mo': 'mocc', 'bo': 'body', 'sp': 'spec', 'me': 'members',
-          'tx': 'text', 'id': 'identities', 'ow': 'owners', 'mp': 'memparent', 'mt': 'memtab', 'ca': 'calls', 'td': 'tdef'}
+          'tx': 'text', 'id': 'identities', 'ow': 'owners', 'mp': 'memparent', 'mt': 'memtab', 'ca': 'calls', 'td': 'tdef',
+          'nt': 'ntab', 'nc': 'nocc', 'np': 'nparent', 'no': 'nown'}
 
 
 def expand(clause):
@@ -162,7 +164,7 @@ def run(ctx):
             raise MachineryError(f'design mutant {m} was not rejected by {prop} (got {r.invariant_violated})\n{r.tail(20)}')
         return m
 
-    muts = ['MutShareBody', 'MutNoRescope', 'MutRegisterInParent'] if quick else MUTS
+    muts = ['MutShareNest', 'MutNoRescope', 'MutRegisterInParent'] if quick else MUTS
     workers = min(NCPU, 8 if quick else 14)
     pool = None if ctx.replay else make_pool(workers)
     try:
@@ -188,7 +190,7 @@ def run(ctx):
                     fx = L.gen_fixture(kind, rng)
                     tasks += [(fx, h) for h in short]
                 # longer histories: quick = a seeded subset on fresh random fixtures; thorough = all, kinds rotating
-                pick = rest[:250] if quick else rest
+                pick = rest[:150] if quick else rest
                 for i, h in enumerate(pick + smp):
                     for kind in ([L.KINDS[i % 6]] if quick or i >= len(pick) else [L.KINDS[i % 6], L.KINDS[(i + 3) % 6]]):
                         tasks.append((L.gen_fixture(kind, rng), h))
@@ -251,7 +253,7 @@ def run(ctx):
         'modifications: rename (name attribute), re-type (symbol table / variables setter), body edits (append, prepend, '
         'Transformer replace, in-place node update), spec edits (new declaration, new node), symbol-table entry, new member',
         'Sourcefile.clone has no name override: histories with a renaming clone are not replayed on the file kind',
-        'quick: every history clone+<=1 modification on all 6 unit kinds, 250 seeded longer TLC histories; thorough: all '
+        'quick: every history clone+<=1 modification on all 6 unit kinds, 150 seeded longer TLC histories; thorough: all '
         'TLC histories of <= 3 events (clone first or second) on 2 kinds each + 4000 sampled histories of 5 events',
         'violated identity clauses are recorded and the history is validated further; a violated content clause ends it',
         'TLC and CloneAlias.tla are trusted; python only drives Loki and projects identities/types/text hashes',
@@ -259,14 +261,14 @@ def run(ctx):
 
 
 def _brief(v):
-    return {k: v[k] for k in ('name', 'tab', 'body', 'members', 'owners', 'memparent', 'memtab', 'calls', 'tdef')}
+    return {k: v[k] for k in ('name', 'tab', 'body', 'members', 'owners', 'memparent', 'memtab', 'calls', 'tdef', 'ntab', 'nparent', 'nown')}
 
 
 def selftest(ctx):
     """Binding check of the trace validation: an honest case is accepted, corrupted recordings are rejected."""
     import copy
     rng = random.Random(1)
-    fx = L.gen_fixture('func', rng)
+    fx = L.gen_fixture('func', rng, nested=False)
     ev = [{'op': 'clone', 'k': 'c', 'a1': '', 'a2': '', 'how': ''},
           {'op': 'editbody', 'k': 'c', 'a1': 'e1', 'a2': '', 'how': 'append'},
           {'op': 'retype', 'k': 'o', 'a1': 'v1', 'a2': 'real', 'how': 'symtab'}]
@@ -279,8 +281,16 @@ def selftest(ctx):
     bad3['events'][0]['after']['c']['owners'] = ['other', 'self']
     bad4 = copy.deepcopy(good)
     bad4['events'][0]['after']['c']['text'] = 'deadbeef0000'
-    v = ctx.validate('Trace_CloneAlias', 'Trace_CloneAlias', [good, bad1, bad2, bad3, bad4])
-    want = [(True, 'ok'), (False, 'U:bo@2;'), (False, 'U:oc@3;'), (False, 'S:c:ow@1;'), (False, 'C:tx@1;')]
-    got = [(v[i][0], v[i][1]) for i in range(5)]
+    # nested scopes: the re-typing of a component in the clone shows up in the original's nested table
+    nfx = L.gen_fixture('sub', rng)
+    nev = [ev[0], {'op': 'nretype', 'k': 'c', 'a1': 'n1', 'a2': 'real', 'how': 'as'}]
+    bad5 = replay(nfx, nev)
+    bad5['events'][1]['after']['o']['ntab']['as']['n1'] = 'real'
+    bad6 = replay(nfx, nev)
+    bad6['events'][0]['after']['o']['nparent'] = ['other', 'self']
+    v = ctx.validate('Trace_CloneAlias', 'Trace_CloneAlias', [good, bad1, bad2, bad3, bad4, bad5, bad6])
+    want = [(True, 'ok'), (False, 'U:bo@2;'), (False, 'U:oc@3;'), (False, 'S:c:ow@1;'), (False, 'C:tx@1;'),
+            (False, 'S:c:td@1;U:nt@2;'), (False, 'O:id@1;')]
+    got = [(v[i][0], v[i][1]) for i in range(7)]
     print('selftest C17', 'PASS' if got == want else f'FAIL {got}')
     return 0 if got == want else 2
